@@ -14,9 +14,8 @@
                      computed (Prop = C16: stake buckets, counters, effectiveVET, balance, delegations, amounts paid;
                      Prop = C17: status, periods, exit / offline blocks, weights, both linked lists, leader group,
                      exit-block map, PoS status);
-     MISMATCH-OTHER  the same for the getters of the other property: the implementation has left the model for a
-                     reason that belongs to the other property; the history is given up there by this check and
-                     reported by the other one;
+     MISMATCH-OTHER  the same for the getters of the other property: reported by the other check; this check notes it
+                     and goes on comparing its own getters only (later consequences in its own observables count);
      MISMATCH-PROJ   an internal projection (the renewal list) differs while all observables agree: drift (exit 2);
 
    and all design invariants / action properties of Staker.tla listed in the cfg are evaluated at every step of the
@@ -44,7 +43,7 @@ ResetTo(vs, b0, m0) ==
 
 SeqToSet(s) == {s[i] : i \in 1..Len(s)}
 
-Init == /\ HWMInit /\ Len(Trace) >= 1 /\ Trace[1].e = "Reset"
+Init == /\ HWMInit /\ TLCSet(2, 0) /\ Len(Trace) >= 1 /\ Trace[1].e = "Reset"
         /\ InitWith(SeqToSet(Trace[1].vals), Trace[1].block, Trace[1].mbp)
         /\ l = 2
 
@@ -60,7 +59,7 @@ Step ==
   \/ Ev.e = "AddDelegation" /\ AddDelegation(Ev.a, Ev.s, Ev.m)
   \/ Ev.e = "SignalDelegationExit" /\ SignalDelegationExit(Ev.d)
   \/ Ev.e = "WithdrawDelegation" /\ WithdrawDelegation(Ev.d)
-  \/ Ev.e = "SetOnline" /\ SetOnline(Ev.a, Ev.on)
+  \/ Ev.e = "SetOnline" /\ Ev.a \in VS /\ Plain("SetOnline", OpSetOnline(CUR, Ev.a, block, Ev.on), Ev.a, 0)
   \/ Ev.e = "SetMBP" /\ SetMBP(Ev.m)
   \/ Ev.e = "Donate" /\ Donate(Ev.x)
   \/ Ev.e = "GenesisHousekeep" /\ block = 0 /\ HousekeepAt(0)
@@ -156,11 +155,20 @@ Proj(R) == IF CheckProj /\ Has(R, "post") /\ ~GetterFailed(R) /\ Has(R.post, "re
 
 Report(tag, s) == IF s = {} THEN TRUE ELSE PrintT(<<tag, l - 2, Last.e, s>>) /\ FALSE
 
-\* used as a CONSTRAINT (after Progress): a state that does not conform is reported and not explored further, so the
-\* run ends at the first deviation without TLC printing a behaviour of thousands of states
-Conforms == l > 1 => /\ Report("MISMATCH-OWN", Own(Last))
-                     /\ Report("MISMATCH-OTHER", Other(Last))
-                     /\ Report("MISMATCH-PROJ", Proj(Last))
+\* used as a CONSTRAINT (after Progress): a state that does not conform in this property's getters is reported and not
+\* explored further, so the run ends at the first deviation without TLC printing a behaviour of thousands of states.
+\* A deviation that shows only in the OTHER property's getters is printed once per history (TLC register 2) and the
+\* history goes on with this property's getters only: the other check reports the first symptom, this one still sees
+\* every later consequence in its own observables (e.g. a wrongly recorded exit block that shortens a cooldown).
+Conforms == l > 1 =>
+  /\ (Last.e = "Reset" => TLCSet(2, 0))
+  /\ Report("MISMATCH-OWN", Own(Last))
+  /\ \/ TLCGet(2) = 1
+     \/ /\ Other(Last) = {}
+        /\ Report("MISMATCH-PROJ", Proj(Last))
+     \/ /\ Other(Last) # {}
+        /\ PrintT(<<"MISMATCH-OTHER", l - 2, Last.e, Other(Last)>>)
+        /\ TLCSet(2, 1)
 
 \* the action properties of Staker.tla on the observed execution (a Reset step starts another history)
 T_LockedReleasedOnlyOnTime == [][Ev.e \in {"Reset", "GenesisHousekeep"} \/ A_LockedReleasedOnlyOnTime]_vars
